@@ -17,6 +17,7 @@ WIDE, INDIRECT, NOCONS, NODEPS, QUOTED = "-fwide-types", "-findirect-choice", "-
 NOPER, NOOER = "-no-gen-PER", "-no-gen-OER"
 REPR6 = [WIDE, INDIRECT, NOCONS, NODEPS, QUOTED, NOPER]      # the six toggles enumerated exhaustively in the thorough tier
 
+DRIVER = ("gen_c13_driver.c", "ops_gen_core.c", "ops_gen_c13.c", "reflect.c")
 F70_SIG = re.compile(r"asn_(OER|PER)_memb_\w+_constr_\d+.? undeclared")
 
 # ---------------------------------------------------------------------------------- option sets
@@ -42,6 +43,70 @@ def syn_ok(opts, syn):
     if syn == "uper" and NOPER in opts: return False
     if syn == "oer" and NOOER in opts: return False
     return True
+
+# ---------------------------------------------------------------------------------- region of finding F71
+def alpha_disjoint(t, env, seen=()):
+    """does t contain a string type whose permitted alphabet is a union of >= 2 disjoint ranges?  (asn1c then needs
+    the value2code/code2value maps, which it emits as part of the constraint-checking code: F71)"""
+    k = t["k"]
+    if k == "REF":
+        return False if t["name"] in seen else alpha_disjoint(env[t["name"]], env, seen + (t["name"],))
+    if k in ("SEQUENCE", "SET", "CHOICE"): return any(alpha_disjoint(c["type"], env, seen) for c in t["comps"])
+    if k in ("SEQUENCE OF", "SET OF"): return alpha_disjoint(t["elem"], env, seen)
+    chars = set()
+    if t.get("alpha"):
+        for a in t["alpha"]:
+            if isinstance(a, tuple): chars.update(range(ord(a[0]), ord(a[1]) + 1))
+            else: chars.add(ord(a))
+    elif k == "NumericString" and t.get("size"):
+        chars = set(map(ord, " 0123456789"))      # the implicit alphabet of a NumericString that gets its own PER constraint
+    return sum(1 for c in chars if c - 1 not in chars) >= 2
+
+def set_default_zero(t, env, seen=()):
+    """does t contain a SET with a DEFAULT 0 member of INTEGER/ENUMERATED type?  (stored inline by the native
+    representation, so always emitted by SET_encode_xer; a NULL pointer in the wide one, skipped: F72)"""
+    k = t["k"]
+    if k == "REF":
+        return False if t["name"] in seen else set_default_zero(env[t["name"]], env, seen + (t["name"],))
+    if k in ("SEQUENCE", "SET", "CHOICE"):
+        for c in t["comps"]:
+            if k == "SET" and isinstance(c.get("opt"), tuple) and c["opt"][2] == 0 and genmod.resolve_kind(c["type"], env) in ("INTEGER", "ENUMERATED"):
+                return True
+            if set_default_zero(c["type"], env, seen): return True
+        return False
+    if k in ("SEQUENCE OF", "SET OF"): return set_default_zero(t["elem"], env, seen)
+    return False
+
+def explicit_ulong_member(t, env, tagdefault, seen=()):
+    """does t contain a member `[n] EXPLICIT INTEGER (lb..MAX)` (lb >= 0)?  Natively an unsigned long with its own
+    descriptor whose tags[] already contain [n] while the member table says tag_mode=+1: the tag is written twice;
+    with -fwide-types the shared INTEGER descriptor is used and the tag is written once (F73)."""
+    k = t["k"]
+    if k == "REF":
+        return False if t["name"] in seen else explicit_ulong_member(env[t["name"]], env, tagdefault, seen + (t["name"],))
+    if k in ("SEQUENCE", "SET", "CHOICE"):
+        for c in t["comps"]:
+            ct = c["type"]
+            tg = ct.get("tag")
+            if ct["k"] == "INTEGER" and tg and ct.get("cons") and ct["cons"]["lo"] is not None and ct["cons"]["lo"] >= 0 and ct["cons"]["hi"] is None:
+                mode = tg[2] or ("IMPLICIT" if tagdefault in ("IMPLICIT", "AUTOMATIC") else "EXPLICIT")
+                if mode == "EXPLICIT": return True
+            if explicit_ulong_member(ct, env, tagdefault, seen): return True
+        return False
+    if k in ("SEQUENCE OF", "SET OF"): return explicit_ulong_member(t["elem"], env, tagdefault, seen)
+    return False
+
+def known_region(st, env, tn, syn, opts):
+    if syn == "uper" and NOCONS in opts and alpha_disjoint(env[tn], env):
+        st.skipped["F71"] += 1
+        return True
+    if syn in ("der", "descr") and WIDE in opts and explicit_ulong_member(env[tn], env, env.get("__tagdefault__")):
+        st.skipped["F73"] += 1
+        return True
+    if syn in ("xer", "cxer") and WIDE in opts and set_default_zero(env[tn], env):
+        st.skipped["F72"] += 1
+        return True
+    return False
 
 # ---------------------------------------------------------------------------------- module transforms
 def has_constraint(t):
@@ -77,42 +142,84 @@ def hoist_member_constraints(m):
 
 # ---------------------------------------------------------------------------------- descriptor canonicaliser
 KIND_CANON = {"nint": "int", "nenum": "enum", "nreal": "real"}
+LEAF_KINDS = ("int", "enum", "real")
 
-def canon_descr(sx, wide, indirect, noper, nooer, parent_kind=None):
-    """Canonical form of a parsed descriptor dump.  Flags say which *allowed* differences to erase:
-    wide: native/wide kind names and the field_unsigned-only INTEGER specifics;
-    indirect: ATF_POINTER of CHOICE members; noper/nooer: the PER / OER constraint records."""
+class Erase:
+    """which *allowed* differences to erase before comparing two descriptor dumps"""
+    def __init__(self, opts):
+        self.wide = WIDE in opts          # native/wide kinds, field_unsigned-only specifics, own vs shared leaf descriptors
+        self.indirect = INDIRECT in opts  # ATF_POINTER of CHOICE members
+        self.noper = NOPER in opts        # PER constraint records, CHOICE canonical-order tables
+        self.nooer = NOOER in opts        # OER constraint records
+        self.nocons = NOCONS in opts      # (value2code/code2value presence: finding F71, judged on the encodings)
+
+def _field(sx, name):
+    return next((e for e in sx if isinstance(e, list) and e and e[0] == name), None)
+
+def _canon_ec(e, er):
+    """(per ...) / (oer ...) record -> canonical, or None when erased"""
+    if e[0] == "per":
+        if er.noper: return None
+        if er.nocons: return [x for x in e if not (isinstance(x, str) and x.startswith("maps="))]
+    if e[0] == "oer" and er.nooer: return None
+    return e
+
+def canon_descr(sx, er, parent_kind=None):
     if not isinstance(sx, list) or not sx: return sx
     head = sx[0]
     if head == "type":
-        out = ["type", sx[1]]
-        kind = sx[2]
-        ckind = KIND_CANON.get(kind, kind) if wide else kind
-        out.append(ckind)
-        for e in sx[3:]:
+        # (type NAME xml=X KIND (tags) (alltags) (per) (oer) [(spec)] (members))
+        kind = sx[3]
+        ckind = KIND_CANON.get(kind, kind) if er.wide else kind
+        out = ["type", sx[1], sx[2], ckind]
+        for e in sx[4:]:
             if isinstance(e, list) and e:
-                if e[0] == "per" and noper: continue
-                if e[0] == "oer" and nooer: continue
-                if e[0] == "spec" and wide and ckind == "int":
-                    # (spec unsigned=U strict=0 ext=0 map= ()) : representation detail of the native cell
-                    flat = [x for x in e[1:] if not isinstance(x, list)]
-                    maps = [x for x in e[1:] if isinstance(x, list)]
-                    if all(not mm for mm in maps) and "strict=0" in flat and "ext=0" in flat: continue
-                if e[0] == "members":
-                    out.append(["members"] + [canon_descr(mm, wide, indirect, noper, nooer, kind) for mm in e[1:]])
-                    continue
+                if e[0] in ("per", "oer"):
+                    e = _canon_ec(e, er)
+                    if e is None: continue
+                elif e[0] == "spec":
+                    if er.wide and ckind == "int":
+                        flat = [x for x in e[1:] if not isinstance(x, list)]
+                        maps = [x for x in e[1:] if isinstance(x, list)]
+                        if all(not mm for mm in maps) and "strict=0" in flat and "ext=0" in flat: continue
+                    e = [x for x in e if not (isinstance(x, list) and x and ((x[0] == "canon" and er.noper) or (x[0] == "omsinfo" and er.noper and er.nooer)))]
+                elif e[0] == "members":
+                    e = ["members"] + [canon_descr(mm, er, kind) for mm in e[1:]]
             out.append(e)
         return out
     if head == "m":
+        # (m NAME flags= opt= tag= mode= default= (per) (oer) (type|ref))
+        ty = sx[-1]
+        tkind = ty[3] if isinstance(ty, list) and ty and ty[0] == "type" else None
+        ckind = KIND_CANON.get(tkind, tkind)
         out = []
-        for e in sx:
-            if isinstance(e, str) and e.startswith("flags=") and indirect and parent_kind == "choice":
+        leaf = er.wide and ckind in LEAF_KINDS
+        for e in sx[:-1]:
+            if isinstance(e, str) and e.startswith("flags=") and ((er.indirect and parent_kind == "choice") or leaf):
+                # ATF_POINTER: CHOICE members under -findirect-choice; DEFAULT-valued native INTEGER/ENUMERATED members are
+                # inline while their wide counterparts are pointers
                 e = "flags=%d" % (int(e[6:]) & ~1)
-            if isinstance(e, list) and e:
-                if e[0] == "per" and noper: continue
-                if e[0] == "oer" and nooer: continue
-                if e[0] in ("type", "ref"): e = canon_descr(e, wide, indirect, noper, nooer)
+            if isinstance(e, str) and leaf and (e.startswith("tag=") or e.startswith("mode=")): continue
+            if isinstance(e, list) and e and e[0] in ("per", "oer"):
+                if leaf:
+                    if len(e) == 2 and e[1] == "-": e = _field(ty, e[0]) or e       # effective constraint: the member's, else the type's
+                e = _canon_ec(e, er)
+                if e is None: continue
             out.append(e)
+        if leaf:
+            # a leaf INTEGER/ENUMERATED/REAL member may use the shared descriptor or an own one carrying the tag:
+            # compare the effective tag chain, kind and enumeration map
+            tag = next(e for e in sx if isinstance(e, str) and e.startswith("tag="))[4:]
+            mode = int(next(e for e in sx if isinstance(e, str) and e.startswith("mode="))[5:])
+            ttags = _field(ty, "tags")[1]
+            eff = list(ttags) if mode == 0 else [tag] + list(ttags[1:] if mode == -1 else ttags)
+            spec = _field(ty, "spec")
+            if spec is not None and ckind == "int":
+                flat = [x for x in spec[1:] if not isinstance(x, list)]
+                if all(not mm for mm in spec[1:] if isinstance(mm, list)) and "strict=0" in flat and "ext=0" in flat: spec = None
+            out.append(["leaf", ckind, ["efftags"] + eff, spec])
+        else:
+            out.append(canon_descr(ty, er))
         return out
     return sx
 
@@ -139,7 +246,7 @@ def build_many(jobs, workers=8):
     build.build_asn1c(); build.build_skel("asan")
     def one(j):
         name, text, names, opts = j
-        b = bundle.Bundle(name, text, names, opts=list(opts))
+        b = bundle.Bundle(name, text, names, opts=list(opts), driver_sources=DRIVER)
         try:
             return b, b.build()
         except (bundle.Asn1cFailed, build.BuildError) as e:
@@ -168,6 +275,7 @@ def optname(o): return " ".join(o) if o else "(default)"
 def run_module(ctx, st, m, bvals, sets, nvals, try_nocompound=True):
     txt = genmod.module_text(m)
     env = dict(m["types"])
+    env["__tagdefault__"] = m.get("tagdefault")
     names = [n for n, _ in m["types"]]
     jobs = [(f"{m['name']}o{i}", txt, names, full_opts(s)) for i, s in enumerate(sets)]
     if try_nocompound: jobs.append((f"{m['name']}nc", txt, names, full_opts((), compound=False)))
@@ -213,7 +321,7 @@ def run_module(ctx, st, m, bvals, sets, nvals, try_nocompound=True):
         vg = genmod.ValGen(ctx.rng, env)
         lines = []; meta = []
         for n, t in m["types"]:
-            lines.append(f"@{n} descr"); meta.append(("descr", n, None, None))
+            lines.append(f"@{n} xdescr"); meta.append(("descr", n, None, None))
             feats = gfind.features(t, env)
             ok_syn = [syn for syn in SYNTAXES if not c01.skip_region(syn, feats, st.skipped)]
             vals = bvals[n] if bvals is not None else vg.values(t, nvals)
@@ -245,10 +353,11 @@ def run_module(ctx, st, m, bvals, sets, nvals, try_nocompound=True):
                 kind, tn, syn, sx = me
                 o, r = outs[k][j], ref[j]
                 if kind == "descr":
-                    if k == 0: continue
+                    if k == 0 or known_region(st, env, tn, "descr", Bo): continue
                     try:
-                        ca = canon_descr(sexp.parse(r), WIDE in Bo, INDIRECT in Bo, NOPER in Bo, NOOER in Bo)
-                        cb = canon_descr(sexp.parse(o), WIDE in Bo, INDIRECT in Bo, NOPER in Bo, NOOER in Bo)
+                        er = Erase(Bo)
+                        ca = canon_descr(sexp.parse(r), er)
+                        cb = canon_descr(sexp.parse(o), er)
                         d = descr_diff(ca, cb)
                     except Exception as e:
                         d = "unparsable descriptor dump: " + str(e)[:80]
@@ -258,6 +367,7 @@ def run_module(ctx, st, m, bvals, sets, nvals, try_nocompound=True):
                                                                 "output_a": r, "output_b": o, "failure": "descriptor differs in a field the options must not change: " + d[:300]})
                     continue
                 if kind != "enc" or (tn, sx) in unrep or not syn_ok(Bo, syn): continue
+                if known_region(st, env, tn, syn, Bo): continue
                 if o and o.startswith("ok "): declines.setdefault((tn, syn, o[3:]), sx)
                 if k == 0: continue
                 st.stats["enc_compared"] += 1
@@ -270,7 +380,7 @@ def run_module(ctx, st, m, bvals, sets, nvals, try_nocompound=True):
                     if (o or "").startswith("ok "): ctx.count_nontrivial(("enc", m["name"], tn, syn, sx[:60], optname(B)))
         # ---- cross decoding: every build decodes every distinct encoding produced by any build
         dl = sorted(declines)
-        dlines = [f"@{tn} dec {syn} {hx}" for tn, syn, hx in dl]
+        dlines = [f"@{tn} xdec {syn} {hx}" for tn, syn, hx in dl]
         douts = run_all(dlines) if dlines else [[] for _ in live]
         ctx.cov["evaluations"] += len(dlines) * len(live)
         dref = douts[0]
@@ -278,7 +388,7 @@ def run_module(ctx, st, m, bvals, sets, nvals, try_nocompound=True):
             nocomp = s == ("<no -fcompound-names>",)
             Bo = () if nocomp else s
             for j, (tn, syn, hx) in enumerate(dl):
-                if not syn_ok(Bo, syn): continue
+                if not syn_ok(Bo, syn) or known_region(st, env, tn, syn, Bo): continue
                 o, r = douts[k][j], dref[j]
                 sx = declines[(tn, syn, hx)]
                 good = _dec_good(env[tn], o, hx, syn, sx, env)
@@ -365,6 +475,13 @@ WITNESSES = {
             "options_a": list(BASE), "options_b": list(BASE) + [WIDE], "expect_a": "ok 02088000000000000000", "expect_b": "ok 0209008000000000000000"},
     "F70": {"module": "W DEFINITIONS AUTOMATIC TAGS ::= BEGIN S ::= SEQUENCE { a INTEGER (0..7) } END", "type": "S", "options_b": list(BASE) + [NOCONS],
             "expect_build_error": F70_SIG.pattern},
+    "F71": {"module": 'W DEFINITIONS AUTOMATIC TAGS ::= BEGIN N ::= NumericString (FROM("0".."3"|" ")) END', "type": "N", "op": "enc uper (os 3320)",
+            "options_a": list(BASE), "options_b": list(BASE) + [NOCONS], "expect_a": "ok 0280", "expect_b": "ok 0260"},
+    "F72": {"module": "W DEFINITIONS AUTOMATIC TAGS ::= BEGIN T ::= SET { i INTEGER, e ENUMERATED { m, n } DEFAULT m } END", "type": "T",
+            "op": "enc cxer (set (i (int 1)))", "options_a": list(BASE), "options_b": list(BASE) + [WIDE],
+            "expect_a": "ok 3c543e3c693e313c2f693e3c653e3c6d2f3e3c2f653e3c2f543e", "expect_b": "ok 3c543e3c693e313c2f693e3c2f543e"},
+    "F73": {"module": "W DEFINITIONS ::= BEGIN S ::= SEQUENCE { a [5] EXPLICIT INTEGER (0..MAX) } END", "type": "S", "op": "enc der (seq (a (int 1)))",
+            "options_a": list(BASE), "options_b": list(BASE) + [WIDE], "expect_a": "ok 3007a505a503020101", "expect_b": "ok 3005a503020101"},
 }
 
 def replay_witnesses(ctx, st):
